@@ -81,6 +81,10 @@ def case_features(case, feats: Set[str]) -> List[str]:
     out.add("config.sync" if cfg.get("async_client") is False else "config.async")
     if cfg.get("opentelemetry_client"):
         out.add("config.otel_tracer" if cfg.get("_tracer") else "config.otel")
+    if cfg.get("enable_custom_operations"):
+        out.add("config.custom_ops")
+    if cfg.get("files_to_include"):
+        out.add("config.files_to_include")
     return sorted(out)
 
 
@@ -478,6 +482,15 @@ def replay_shared(prop: str, data) -> int:
         print("--- schema ---\n" + data["case"]["_sdl"][:3000])
         print("--- queries ---\n" + data["case"]["_queries"][:3000])
     return 1 if res.violations else 0
+
+
+def with_custom_operations(case: Dict[str, Any], i: int) -> None:
+    """case_hook for C04: mixins on every 4th case, enable_custom_operations on every 5th."""
+    with_mixins(case, i)
+    if i % 5 == 2:
+        case["cfg"] = dict(case["cfg"])
+        case["cfg"]["enable_custom_operations"] = True
+        case["dirty"] = sorted(set(case.get("dirty", [])))
 
 
 def with_mixins(case: Dict[str, Any], i: int) -> None:
